@@ -395,9 +395,15 @@ def r4(ctx, cfg):
                 guarded = any((c[0] == "bool" and c[1][0] == "is_some" and c[1][2] is True and is_sub_response_field(c[1][1][0], "data")) or
                               (c[0] == "variant_in" and c[2] == ("Some",) and is_sub_response_field(c[1], "data")) for e, c in conds)
                 # .. and under nothing else that looks at the sub-response or at the data collected so far
-                extra = [c for e, c in conds if c[0] == "bool" and not (c[1][0] == "is_some" and c[1][2] is True and is_sub_response_field(c[1][1][0], "data")) and
+                extra = [c for e, c in conds if c[0] == "bool" and not q.is_derived(c) and not (c[1][0] == "is_some" and c[1][2] is True and is_sub_response_field(c[1][1][0], "data")) and
                          any(contains(x, lambda y: _is_ok_submsg(y) or y[0] == "cycle" or (y[0] == "field" and y[2] == "data" and is_param(y[1], "response"))) for x in c[1][1])]
                 kinds.append(("new-if-present" if not extra else "other:replacement under %s" % [(c[1][0], c[1][2]) for c in extra]) if guarded else "other:unconditional replacement")
+            elif v[0] == "agg" and v[1].endswith("Option::Some") and v[2] and peel(v[2][0][1])[0] == "some" and is_sub_response_field(peel(v[2][0][1])[1], "data"):
+                # `if let Some(d) = sub_response.data { data = Some(d) }`: the same replacement, re-wrapped
+                guarded = any(c[0] == "variant_in" and c[2] == ("Some",) and is_sub_response_field(c[1], "data") for e, c in conds)
+                extra = [c for e, c in conds if c[0] == "bool" and not q.is_derived(c) and
+                         any(contains(x, lambda y: _is_ok_submsg(y) or y[0] == "cycle" or (y[0] == "field" and y[2] == "data" and is_param(y[1], "response"))) for x in c[1][1])]
+                kinds.append("new-if-present" if guarded and not extra else "other:re-wrapped replacement under %s" % [(c[1][0], c[1][2]) for c in extra])
             elif v[0] in ("cycle", "never") or (v[0] == "ok" and peel(v[1])[0] == "cycle"):
                 continue
             else:
